@@ -357,6 +357,28 @@ Definition conv_presyn4_shape (g : geom) (s : list nat) : list nat :=
 Definition conv_postsyn_shape (s : list nat) : list nat :=              (* "b f oh ow -> b f 1 1 1 (oh ow)" *)
   match s with [b; f; oh; ow] => [b; f; 1; 1; 1; oh * ow] | _ => [] end.
 
+(* ====================================================================================
+   Re-parameterisation between steps.  A connection keeps no state derived from its parameters: forward reads
+   weight / bias at call time (linear.py:347-352, 672-674; conv.py:556, 575-576).  Every public route that changes
+   a parameter is, on the flat row-major parameter, a replacement or an addition:
+     property setter (mixins.py: `.data = value`)                      PSet value
+     Updater application (modeling.py: setattr(p, p + (pos - neg)))    PAdd (pos - neg)
+     in-place add_ / copy_ / element write on the Parameter            PAdd / PSet
+     load_state_dict from a twin, .to(dtype)                            PSet (twin's / rounded values)
+   LinearLateral re-masks weight and delay whenever they go through their setters (also on every Updater
+   application, which re-assigns all updatable parameters), but not on in-place modification.
+   ==================================================================================== *)
+Inductive pop := PKeep | PSet (v : list T) | PAdd (u : list T).
+Definition papply (p : list T) (o : pop) : list T :=
+  match o with PKeep => p | PSet v => v | PAdd u => map2 (add N) p u end.
+Definition mask_flat (n : nat) (w : list T) : list T := concat (masked (chunk n n w)).
+(* one round: weight op, re-mask flag (n > 0 for lateral), bias op *)
+Definition step_params (n : nat) (w : list T) (b : option (list T)) (wo : pop) (mk : bool) (bo : pop)
+  : list T * option (list T) :=
+  let w1 := papply w wo in
+  (if mk then mask_flat n w1 else w1,
+   match b with Some bv => Some (papply bv bo) | None => None end).
+
 End Model.
 
 Arguments mkT {N} tshape tdata.
